@@ -81,7 +81,7 @@ partial def why (X : Compile.TP) (d : Bool) (n : GoNode) : Option String :=
     (dir rtl opSet).orElse fun _ =>
       if ci then some "ci:Set" else if (X.rd s).isNone then some "set-unreadable" else none
   | .multi rtl ci _ => (dir rtl opMulti).orElse fun _ => if ci then some "ci:Multi" else none
-  | .ref rtl _ m => (dir rtl opRef).orElse fun _ => if m < 0 then some "node:Ref" else none
+  | .ref rtl ci m => (dir rtl opRef).orElse fun _ => if m < 0 then some "node:Ref" else if ci then some "ci:Ref" else none
   | .charloop t rtl _ ch _ _ =>
     (dir rtl t).orElse fun _ =>
       if ch < 0 || !(charloopTypes.contains t) then some s!"node:{typeName t}" else none
@@ -112,7 +112,9 @@ def reason (X : Compile.TP) (ti : TreeInfo) (root : GoNode) : String :=
     if ti.rtl then "rtl"
     else match why X false body with
       | some r => r
-      | none => if mapCapnum (mainCfg ti) 0 != 0 then "slot0" else "unknown"
+      | none =>
+        if mapCapnum (mainCfg ti) 0 != 0 then "slot0"
+        else if (writerCaps ti).2.isSome && decide (6 ≤ Compile.tier root) then "caps-map" else "unknown"
   | _ => "root"
 
 /-- the smallest `k ∈ {1,…,8}` with `Compile.InFrag k` -/
